@@ -92,7 +92,7 @@ PROPS['C15'] = dict(
 )
 
 PROPS['C16'] = dict(
-    unit_modules=[], driver_modules=['drivers.c16'], level='other',
+    unit_modules=['contracts.c16_math'], driver_modules=['drivers.c16'], level='other',
     level_text='tbd', level_note='tbd', assumptions=COMMON_ASSUMPTIONS,
 )
 
